@@ -6,8 +6,14 @@ Record sub_obs := {
   o_panic : bool;                        (* the process crashed while this case ran *)
   o_success : bool;                      (* Submit<Kind> returned nil *)
   o_ret : N;                             (* when it returned *)
-  o_nodes : list (list (N * list N))     (* per configured node, in input order: the calls it received
+  o_nodes : list (list (N * list N));    (* per configured node, in input order: the calls it received
                                             as (time of the call, ids of the items), sorted by first id *)
+  o_cut : list (list (N * bool))         (* per configured node: the instants at which a request to it was
+                                            abandoned because the context the submitter made it with was
+                                            finished (refused at entry / cut short in flight), and whether
+                                            that request was scripted never to be answered (hang); the
+                                            scripted nodes honour the request context in every method,
+                                            version requests included, as the HTTP client does *)
 }.
 
 Inductive cbody :=
@@ -56,7 +62,11 @@ Definition agree_submit (inp : input) (order : list nat) (obs : sub_obs) : bool 
   negb (o_panic obs)
   && is_perm order (length (i_nodes inp))
   && memb (prod_eqb bool_eqb N.eqb) (o_success obs, o_ret obs) outs
-  && forall2b view_agrees vs (o_nodes obs).
+  && forall2b view_agrees vs (o_nodes obs)
+  (* the model's node goroutines use the caller's context as it is (submit*.go hands ctx to
+     sem.Acquire, serviceInfo, Submit<Kind>, handle...Error unchanged): the submitter finishes no
+     request of its own accord, neither at a rejection, nor at the first acceptance, nor at the timeout *)
+  && forallb is_nil (o_cut obs).
 
 Definition agree (c : case) : bool :=
   match c_body c with
@@ -134,6 +144,11 @@ Definition P_submit (inp : input) (obs : sub_obs) : bool :=
      else
        (* every node that was contacted got the whole payload exactly once *)
        forallb (fun ocs => is_nil ocs || whole_payload k len ocs) (o_nodes obs)
+       (* ... and none of its requests that would have been answered was abandoned by the submitter
+          before the timeout (whatever that node's other requests or the other nodes answered): offered
+          means left to be answered.  (Giving up a request that is never answered, or any request once
+          the timeout has passed, delivers no less: that is left to `agree`.) *)
+       && forallb (forallb (fun c => snd c || (T <=? fst c))) (o_cut obs)
        (* concurrency >= number of nodes: every node is contacted at once, whatever the others do *)
        && ((i_conc inp <? n)%Z
            || forallb (fun ocs => negb (is_nil ocs) && forallb (fun oc => fst oc =? 0) ocs) (o_nodes obs))
